@@ -162,6 +162,9 @@ type Case struct {
 	AuthzLabel string                 `json:"authz,omitempty"`
 	// authenticator
 	AuthKeyRandom bool          `json:"auth_key_random"`
+	// AuthSealAs, when non-zero: the authenticator is sealed with the algorithms of this other encryption type over
+	// the session key's bytes and labelled with it (the label is clear text; the key's type decides, RFC 3961)
+	AuthSealAs int32 `json:"auth_seal_as,omitempty"`
 	AuthUsage     uint32        `json:"auth_usage"`
 	AuthMut       CipherMut     `json:"auth_mut"`
 	ACRealm       string        `json:"a_crealm"`
@@ -332,13 +335,17 @@ func (w *World) Mint(c Case) (Minted, error) {
 	if c.RawAuth != nil {
 		authBytes = c.RawAuth
 	}
-	act, err := rcrypto.EncryptWithConfounder(c.Etype, akey, c.AuthUsage, w.conf(c.Etype), authBytes)
+	aet := c.Etype
+	if c.AuthSealAs != 0 {
+		aet = c.AuthSealAs
+	}
+	act, err := rcrypto.EncryptWithConfounder(aet, akey, c.AuthUsage, w.conf(aet), authBytes)
 	if err != nil {
 		return m, err
 	}
 	act = c.AuthMut.apply(act)
 	m.AuthCT = act
-	m.APReq = krbmsg.APReq{PVNO: 5, MsgType: 14, APOptions: 0, Ticket: m.Ticket, Auth: krbmsg.EncryptedData{EType: c.Etype, Cipher: act}}.Encode()
+	m.APReq = krbmsg.APReq{PVNO: 5, MsgType: 14, APOptions: 0, Ticket: m.Ticket, Auth: krbmsg.EncryptedData{EType: aet, Cipher: act}}.Encode()
 	return m, nil
 }
 
@@ -425,7 +432,7 @@ func (w *World) Expect(c Case, s Settings, replayed bool) Verdict {
 		}
 	}
 	// 3. authenticator decrypts under the session key
-	if c.AuthKeyRandom || c.AuthUsage != 11 || c.AuthMut.Kind != "" {
+	if c.AuthKeyRandom || c.AuthUsage != 11 || c.AuthMut.Kind != "" || c.AuthSealAs != 0 {
 		return rej("authenticator-does-not-decrypt")
 	}
 	// 4. same client principal and realm
@@ -532,6 +539,17 @@ func Catalogue(skew time.Duration) []Defect {
 		{"ctime-minus-skew", func(c *Case) { c.CTime = -skew }},
 		{"ctime-minus-skew-1us", func(c *Case) { c.CTime = -skew - time.Microsecond }},
 		{"auth-key-random", func(c *Case) { c.AuthKeyRandom = true }},
+		// sealed under the session key's bytes with a sibling type's algorithms and labelled as that type (equal key lengths only)
+		{"auth-sealed-as-sibling-etype", func(c *Case) {
+			o := otherLabel(c.Etype)
+			po, ok1 := rcrypto.Get(o)
+			pe, ok2 := rcrypto.Get(c.Etype)
+			if ok1 && ok2 && po.KeyLen == pe.KeyLen {
+				c.AuthSealAs = o
+			} else {
+				c.AuthKeyRandom = true
+			}
+		}},
 		{"auth-usage-7", func(c *Case) { c.AuthUsage = 7 }},
 		{"auth-flip-first-bit", func(c *Case) { c.AuthMut = CipherMut{"flip", 0} }},
 		{"auth-flip-last-bit", func(c *Case) { c.AuthMut = CipherMut{"flip", -1} }},
@@ -565,6 +583,12 @@ func Catalogue(skew time.Duration) []Defect {
 		{"caddr-other", func(c *Case) { c.CAddr = []krbmsg.HostAddress{AddrOther} }},
 		{"caddr-other-and-matching", func(c *Case) { c.CAddr = []krbmsg.HostAddress{AddrOther, AddrMatch} }},
 		{"caddr-empty-list", func(c *Case) { c.CAddr = []krbmsg.HostAddress{} }},
+		// the client's address bytes under another address type, and its IPv4-mapped IPv6 form: neither is the client's address
+		{"caddr-other-type-same-bytes", func(c *Case) { c.CAddr = []krbmsg.HostAddress{{Type: 20, Addr: AddrMatch.Addr}} }},
+		{"caddr-directional-same-bytes", func(c *Case) { c.CAddr = []krbmsg.HostAddress{{Type: 3, Addr: AddrMatch.Addr}, AddrOther} }},
+		{"caddr-v4-mapped-v6", func(c *Case) {
+			c.CAddr = []krbmsg.HostAddress{{Type: 24, Addr: append([]byte{0, 0, 0, 0, 0, 0, 0, 0, 0, 0, 0xff, 0xff}, AddrMatch.Addr...)}}
+		}},
 		{"replay", func(c *Case) { c.Twice = true }},
 		{"tkt-realm-empty", func(c *Case) { c.TktRealm = "" }},
 		// times far outside what a duration can express (time.Time.Sub saturates beyond about 292 years)
